@@ -9,6 +9,16 @@
   C code being modelled (push):
       head = load(q->head);
       do { n->next = head; } while (!CAS_weak(&q->head, &head, n));   // failure reloads `head`
+  (push_timeout, `tries` is a size_t):
+      head = load(q->head);
+      do { n->next = head;
+           if (CAS_weak(&q->head, &head, n)) return MPMC_SUCCESS;   // 1
+           tries -= 1; } while (tries > 0);
+      return MPMC_RETRY;                                            // 0: `n` was NOT published
+    Same accesses as push; after the b-th failed CAS it gives up without any further access.
+    The pcs of a push_timeout carry the remaining number of tries.  Client obligation
+    (encoded in `step`): `tries ≥ 1` — with `tries = 0` the decrement wraps to SIZE_MAX before
+    the test, i.e. the call behaves like the unbounded push (the harness never passes 0).
   (lifo_flush):  return exchange(&q->head, NULL);
   (fifo_flush):  return reverse(lifo_flush(q));
   (reverse):     fifo = NULL; while (head) { next = head->next; head->next = fifo; fifo = head; head = next; }
@@ -16,6 +26,9 @@
 
   The single-word CAS push needs no ABA counter here: the only removal is "take
   everything", so "head is node h again" always means "h is the current top" (Proof/Stack.lean).
+
+  Harness notes: `call push <v>` / `ret push 1` (mpmc_stack_push), `call pushto <v> <b>` /
+  `ret pushto <r>` (mpmc_stack_push_timeout with `tries = b`; r = 1 MPMC_SUCCESS, 0 MPMC_RETRY).
 
   Client obligation (encoded in `step`): a thread pushes only a non-NULL node it owns.
   Ownership ghost: initially `own0`; a successful push CAS gives the node to the container;
@@ -37,6 +50,16 @@ inductive Pc
   | pushGotHead (n h : Nat)
   | pushWroteNext (n h : Nat)
   | pushDone
+  /-- `mpmc_stack_push_timeout`: value, budget (`tries`) -/
+  | toCalled (v b : Nat)
+  /-- `b` = remaining tries (≥ 1), the one about to be made included -/
+  | toReady (n b : Nat)
+  | toGotHead (n h b : Nat)
+  | toWroteNext (n h b : Nat)
+  /-- the CAS succeeded: returns MPMC_SUCCESS -/
+  | toDone
+  /-- the last permitted CAS failed: returns MPMC_RETRY, the caller keeps node `n` -/
+  | toGaveUp (n : Nat)
   | flushCalled (fifo : Bool)
   /-- `mpmc_stack_reverse` with `head = hd ≠ NULL`, `fifo = acc`; ghost: nodes still to
       reverse (from `hd`) and nodes already reversed (from `acc`) -/
@@ -55,6 +78,10 @@ inductive Ev
   | wrNext (t n x : Nat)
   | cas (t found exp des : Nat) (ok : Bool)
   | retPush (t : Nat)
+  /-- `call pushto <v> <b>`: mpmc_stack_push_timeout with `tries = b` -/
+  | callPushTo (t v b : Nat)
+  /-- `ret pushto <r>`: 1 = MPMC_SUCCESS, 0 = MPMC_RETRY -/
+  | retPushTo (t r : Nat)
   | callFlush (t : Nat) (fifo : Bool)
   | xchg (t old : Nat)
   | rdNext (t n x : Nat)
@@ -77,6 +104,10 @@ structure St where
   res : Nat → List Nat
   /-- ghost: linearisation: `push` at a successful CAS, `flush` at the exchange -/
   lin : List StackOp
+  /-- ghost: per thread, the budget its current/last push_timeout was called with -/
+  tries0 : Nat → Nat := fun _ => 0
+  /-- ghost: per thread, the number of CAS attempts its current/last push_timeout has made -/
+  att : Nat → Nat := fun _ => 0
 
 def init (own0 : Nat → Nat) : St :=
   { head := 0, next := fun _ => 0, data := fun _ => 0, pc := fun _ => .idle,
@@ -92,15 +123,23 @@ def step (s : St) : Ev → Option St
       if v = v' ∧ n ≠ 0 ∧ s.owner n = some t then
         some { s with data := upd s.data n v, pc := upd s.pc t (.pushReady n) }
       else none
+    | .toCalled v' b =>
+      if v = v' ∧ n ≠ 0 ∧ s.owner n = some t then
+        some { s with data := upd s.data n v, pc := upd s.pc t (.toReady n b) }
+      else none
     | _ => none
   | .ldHead t h =>
     match s.pc t with
     | .pushReady n => if h = s.head then some { s with pc := upd s.pc t (.pushGotHead n h) } else none
+    | .toReady n b => if h = s.head then some { s with pc := upd s.pc t (.toGotHead n h b) } else none
     | _ => none
   | .wrNext t m x =>
     match s.pc t with
     | .pushGotHead n h =>
       if m = n ∧ x = h then some { s with next := upd s.next n h, pc := upd s.pc t (.pushWroteNext n h) }
+      else none
+    | .toGotHead n h b =>
+      if m = n ∧ x = h then some { s with next := upd s.next n h, pc := upd s.pc t (.toWroteNext n h b) }
       else none
     | .revGotNext hd acc nx todo done =>
       if m = hd ∧ x = acc then
@@ -118,9 +157,31 @@ def step (s : St) : Ev → Option St
                         lin := s.lin ++ [.push n (s.data n)], pc := upd s.pc t .pushDone }
         else some { s with pc := upd s.pc t (.pushGotHead n found) }
       else none
+    | .toWroteNext n h b =>
+      if found = s.head ∧ exp = h ∧ des = n ∧ ok = decide (found = exp) then
+        if ok then
+          -- exactly the success branch of `mpmc_stack_push`
+          some { s with head := n, owner := upd s.owner n none, stk := n :: s.stk,
+                        lin := s.lin ++ [.push n (s.data n)], pc := upd s.pc t .toDone,
+                        att := upd s.att t (s.att t + 1) }
+        else
+          -- `tries -= 1; while (tries > 0)`: retry with the refreshed `head`, or give up
+          some { s with pc := upd s.pc t (if b - 1 = 0 then .toGaveUp n else .toGotHead n found (b - 1)),
+                        att := upd s.att t (s.att t + 1) }
+      else none
     | _ => none
   | .retPush t =>
     if s.pc t = .pushDone then some { s with pc := upd s.pc t .idle } else none
+  | .callPushTo t v b =>
+    -- client obligation: `tries ≥ 1` (0 wraps around to SIZE_MAX)
+    if s.pc t = .idle ∧ v ≠ 0 ∧ 1 ≤ b then
+      some { s with pc := upd s.pc t (.toCalled v b), tries0 := upd s.tries0 t b, att := upd s.att t 0 }
+    else none
+  | .retPushTo t r =>
+    match s.pc t with
+    | .toDone => if r = 1 then some { s with pc := upd s.pc t .idle } else none
+    | .toGaveUp _ => if r = 0 then some { s with pc := upd s.pc t .idle } else none
+    | _ => none
   | .callFlush t fifo =>
     if s.pc t = .idle then some { s with pc := upd s.pc t (.flushCalled fifo) } else none
   | .xchg t old =>
@@ -169,6 +230,10 @@ def ofRaw (r : RawEv) : Option Ev :=
   match r.kind, r.args with
   | "note", ["call", "push", v] => v.toNat?.map (Ev.callPush t)
   | "note", ["ret", "push", _] => some (Ev.retPush t)
+  | "note", ["call", "pushto", v, b] => do
+    let v ← v.toNat?; let b ← b.toNat?
+    pure (Ev.callPushTo t v b)
+  | "note", ["ret", "pushto", r] => r.toNat?.map (Ev.retPushTo t)
   | "note", ["call", "flush", m] =>
     if m = "fifo" then some (Ev.callFlush t true) else if m = "lifo" then some (Ev.callFlush t false) else none
   | "note", ["item", v] => v.toNat?.map (Ev.item t)
@@ -194,7 +259,13 @@ def ofRaw (r : RawEv) : Option Ev :=
     call/return instants; an empty flush is a pop that reported empty.  On top of the generic
     checks (invented / duplicate / lost / emptyLie) the order INSIDE one flush is judged:
     if push a returned before push b was called, a fifo flush must hand out a before b and a
-    lifo flush b before a. -/
+    lifo flush b before a.
+
+    A push_timeout that gave up (`ret pushto 0`) never put its value into the container: it is
+    NOT turned into an operation of the history at all (so the generic checks see neither a push
+    nor a "failed push" — Core/QueueHist.lean stays as it is); its value is remembered in
+    `gaveUp`, and handing such a value out is reported (`gaveUpBad`).  The harness gives every
+    push attempt, successful or not, a fresh value. -/
 
 structure MonAcc where
   pos : Nat := 0
@@ -202,6 +273,8 @@ structure MonAcc where
   pendFlush : List (Nat × Bool × Nat × List Nat) := [] -- thread, fifo, call, items so far
   ops : List QueueHist.Op := []
   flushes : List (Bool × List Nat) := []
+  gaveUp : List Nat := []                             -- values of push_timeouts that returned 0
+  badRet : Option String := none
 
 def monStep (a : MonAcc) (r : RawEv) : MonAcc :=
   if r.kind ≠ "note" then a else
@@ -214,6 +287,16 @@ def monStep (a : MonAcc) (r : RawEv) : MonAcc :=
     | some (_, v, c) =>
       { a with pendPush := a.pendPush.filter (fun p => p.1 ≠ t),
                ops := a.ops ++ [{ thread := t, isPush := true, val := v, ok := true, call := c, ret := a.pos }] }
+    | none => a
+  | ["call", "pushto", v, _] => { a with pendPush := (t, v.toNat?.getD 0, a.pos) :: a.pendPush }
+  | ["ret", "pushto", r] =>
+    match a.pendPush.find? (fun p => p.1 = t) with
+    | some (_, v, c) =>
+      let a := { a with pendPush := a.pendPush.filter (fun p => p.1 ≠ t) }
+      if r = "1" then
+        { a with ops := a.ops ++ [{ thread := t, isPush := true, val := v, ok := true, call := c, ret := a.pos }] }
+      else if r = "0" then { a with gaveUp := a.gaveUp ++ [v] }
+      else { a with badRet := some s!"badReturn: push_timeout of {v} returned {r} (neither MPMC_SUCCESS nor MPMC_RETRY)" }
     | none => a
   | ["call", "flush", m] => { a with pendFlush := (t, m = "fifo", a.pos, []) :: a.pendFlush }
   | ["item", v] =>
@@ -252,11 +335,26 @@ def dupInFlush (flushes : List (Bool × List Nat)) : Option String :=
   flushes.findSome? fun (_, items) =>
     (items.find? (fun v => items.count v > 1)).map (fun v => s!"duplicate: value {v} handed out twice by one flush")
 
+/-- a value whose push_timeout gave up (and that no successful push carried) was handed out:
+    the operation reported "not pushed" although it had published the node -/
+def gaveUpBad (ops : List QueueHist.Op) (flushes : List (Bool × List Nat)) (gaveUp : List Nat) :
+    Option String :=
+  let pushed := (ops.filter (fun o => o.isPush && o.ok)).map (·.val)
+  flushes.findSome? fun (_, items) =>
+    (items.find? (fun v => gaveUp.contains v && !pushed.contains v)).map
+      (fun v => s!"invented: a flush handed out {v} although its push_timeout gave up (returned MPMC_RETRY)")
+
 /-- Across flushes the generic FIFO check applies to lifo and fifo flushes alike: if push a
     returned before push b was called and a flush that returned b completed before the flush
     that returned a was called, the earlier "take everything" left a behind. -/
 def stackMonitor (lines : List String) : Option String :=
   let a := (lines.filterMap parseLine).foldl monStep {}
+  match a.badRet with
+  | some m => some m
+  | none =>
+  match gaveUpBad a.ops a.flushes a.gaveUp with
+  | some m => some m
+  | none =>
   match dupInFlush a.flushes with
   | some m => some m
   | none =>
